@@ -222,6 +222,9 @@ func main() {
 		cases = append(cases, pc...)
 	}
 	nPairwise := len(cases) - nProduct
+	nRecords := len(cases)
+	cases = append(cases, sp.recordFamily("record-shapes", len(cases), r.Thorough())...)
+	nRecords = len(cases) - nRecords
 	cases = append(cases, directed(len(cases))...)
 
 	t0 = time.Now()
@@ -238,7 +241,8 @@ func main() {
 	classes := map[string]int{}
 	notes := map[string]int{}
 	famCount := map[string]int{}
-	var runs, written, inputs, rfc, evaluated int
+	var runs, written, inputs, rfc, evaluated, foreignCx int
+	foreignExample := ""
 	samples := &ev.Samples{N: 8}
 	sampleClass := map[string]bool{}
 	for i, d := range results {
@@ -256,6 +260,9 @@ func main() {
 		}
 		for _, n := range d.res.notes {
 			notes[n]++
+		}
+		if d.res.foreignBroken != "" && (foreignExample == "" || d.c.complexity() < foreignCx) {
+			foreignExample, foreignCx = d.res.foreignBroken, d.c.complexity()
 		}
 		for _, f := range d.res.findings {
 			keyCount[f.Key]++
@@ -320,21 +327,25 @@ func main() {
 		"cases_by_family":                   famCount,
 		"product_cases":                     nProduct,
 		"pairwise_cases":                    nPairwise,
+		"record_shape_cases":                nRecords,
 		"pairwise_value_pairs_covered":      pairsTotal,
 		"dimension_sizes":                   sp.describe(),
 		"transactions_written_and_judged":   written,
 		"inputs_verified_by_both_verifiers": inputs,
 		"rfc6979_signatures_compared":       rfc,
 		"outcome_classes":                   classes,
-		"not_judged_observations":           notes,
-		"violating_cases_by_key":            keyCount,
-		"reference_vectors_validated":       vec,
-		"listed_addresses_equal_reference":  fmt.Sprintf("%d of %d", addrOK, addrAll),
-		"samples":                           samples.L,
+		"not_judged_example_foreign_signature_destroyed_by_raw": foreignExample,
+		"not_judged_observations":                               notes,
+		"violating_cases_by_key":                                keyCount,
+		"reference_vectors_validated":                           vec,
+		"listed_addresses_equal_reference":                      fmt.Sprintf("%d of %d", addrOK, addrAll),
+		"samples":                                               samples.L,
 	}
 	r.Finish(cov, []string{
 		"oracle: accounting model written from the statement (inputs are listed outputs; each destination script = refaddr decode of the typed address with the typed amount, minus the fee for the first -send pair under -f; change = inputs - payments - fee to the -change address or to any of the wallet's own scripts; zero change means no change output); reference packages refaddr, reftx, refhash, refsig, refscript validated against every vector file of the repository at start",
 		"validity: every input must pass script.VerifyTxScript with script.STANDARD_VERIFY_FLAGS|VER_DIS_TAPVER|VER_SIGPUSHONLY and refscript.Verify with Core's STANDARD_SCRIPT_VERIFY_FLAGS|SIGPUSHONLY; random-nonce signatures are judged on validity only; with -rfc6979 ECDSA signatures must equal refsig.ECDSASignRFC6979 (low-S, strict DER, SIGHASH_ALL) over the refhash digest",
+		"family record-shapes (plus the layout 'payout', the record-shape and output-index dimensions of the product and the pairwise array): one funding transaction with 1200..65592 outputs, all paying the wallet's keys with pairwise different values, of which only the outputs at indexes on both sides of every digit-count boundary (0, 9, 10, 99, 100, 999, 1000, 1001, 2345, 9999, 10000, ...) are listed, an index and its truncations both listed and unlisted; records in the shapes the node export, the wallet's own writer, a Windows editor and a person produce; the spent outpoints are compared with the listed set exactly and first",
+		"-raw with a co-signer: a foreign input of each kind carrying the co-signer's VALID signature is part of the offered transaction; that -raw replaces it (observed for foreign P2TR inputs under atype bech32/tap) is recorded in not_judged_observations with an example - the statement's list of what -raw must preserve does not name other signers' data (const judgeForeignSignatureData promotes it)",
 		"the balance folder is synthesised the way the node writes it: balance/<txid>.tx holds the raw funding transaction (legacy or witness serialisation), balance/unspent.txt one '<txid>-<vout> # <amount> BTC @ <addr>, block <h>' line per output; keys and addresses come from the binary itself (-l under each atype, -dump *)",
 		"ownership: P2PKH, P2WPKH and P2TR outputs of the wallet's keys are owned under every atype; a P2SH-P2WPKH output is recognised by the wallet only while atype is p2kh or segwit (under bech32/tap it is skipped as foreign) - the model follows that, the statement quantifies over owned outputs",
 		"the wallet's taproot addresses commit to the untweaked public key (no BIP341 tweak); key-path validity is judged for that output key",
